@@ -143,7 +143,7 @@ def readPath (a : Bytes) : Bytes :=
 canonical form), port (the default port 2015 if none is written or implied), path. -/
 def denotes (a : Bytes) : Bytes × Bytes × Bytes × Bytes :=
   let (s, h, p) := readAddr a
-  let h := match parseIP h with | some ip => ipString ip | none => h
+  let h := canonHost h
   let p := if p.isEmpty then b!"2015" else p
   let s := if s.isEmpty then (if p == b!"443" then b!"https" else b!"http") else s
   (s, h, p, readPath a)
